@@ -114,7 +114,7 @@ def _canon_files_round_robin(req, k):
 
 
 def body_request(wire, sched, *, B, M=None, cl=None, chunked=False, ctype=None, tempmode='real',
-                 touch=('body',), endless=None, max_calls=None, propagate=True, method='POST', retry=False, cfgvia=None):
+                 touch=('body',), endless=None, max_calls=None, propagate=True, method='POST', retry=False, cfgvia=None, stages=None):
     """Serve one request whose body stream is SimStream(wire, sched)."""
     import ombott
     o = Obs()
@@ -155,52 +155,72 @@ def body_request(wire, sched, *, B, M=None, cl=None, chunked=False, ctype=None, 
             path = '/x/%d' % SHARED['n']
     else:
         app = make_app()
+    stages = stages or {}
     with temp_seam(tempmode) as seam:
 
-        def handler():
+        def do_op(req, t):
+            if t == 'body':
+                b = req.body
+                seen['body'] = b.read()
+                seen['body_type'] = type(b).__name__
+                seen['body_spilled'] = seam.owns(b)
+                b2 = req.body
+                seen['body2'] = b2.read()
+                seen['body_same_obj'] = b2 is b
+            elif t == 'copy_body':
+                # a copy taken after the body was consumed (position at the end) and after a partial read
+                seen['copy_body'] = req.copy().body.read()
+                b = req.body
+                b.read(3)
+                seen['copy_body_partial'] = req.copy().body.read()
+            elif t == 'retype':
+                # the application corrects the declared media type after it has looked at the body
+                req.body.read(2)
+                req['CONTENT_TYPE'] = 'application/x-sim-other'
+                seen['body_after_retype'] = req.body.read()
+            elif t.startswith('rebind:'):
+                # a second body bound to the same request object (e.g. unpacking a batch of sub-requests)
+                import io
+                b2 = bytes.fromhex(t.split(':', 1)[1])
+                req['wsgi.input'] = io.BytesIO(b2)
+                seen['forms_rebound'] = _canon_forms(req.forms)
+                seen['files_rebound'] = _canon_files(req.files)
+            elif t == 'input':
+                inp = req.environ['wsgi.input']
+                inp.seek(0)
+                seen['input'] = inp.read()
+            elif t == 'forms':
+                seen['forms'] = _canon_forms(req.forms)
+            elif t == 'forms_quiet':
+                # an earlier stage (a hook) looks at the form without keeping anything
+                req.forms
+            elif t == 'files':
+                seen['files'] = _canon_files(req.files)
+            elif t == 'files_seek':
+                seen['seek_problem'] = _seek_probe(req)
+            elif t.startswith('files_rr:'):
+                seen['files'] = _canon_files_round_robin(req, int(t.split(':')[1]))
+            elif t == 'POST':
+                seen['POST'] = _canon_post(req.POST)
+            elif t == 'json':
+                seen['json'] = req.json
+            elif t == 'params':
+                seen['params'] = _canon_forms(req.params)
+            else:
+                raise AssertionError(t)
+
+        def run_ops(ops, stage):
             req = app.request
             try:
-                for t in touch:
-                    if t == 'body':
-                        b = req.body
-                        seen['body'] = b.read()
-                        seen['body_type'] = type(b).__name__
-                        seen['body_spilled'] = seam.owns(b)
-                        b2 = req.body
-                        seen['body2'] = b2.read()
-                        seen['body_same_obj'] = b2 is b
-                    elif t == 'copy_body':
-                        # a copy taken after the body was consumed (position at the end) and after a partial read
-                        seen['copy_body'] = req.copy().body.read()
-                        b = req.body
-                        b.read(3)
-                        seen['copy_body_partial'] = req.copy().body.read()
-                    elif t == 'input':
-                        inp = req.environ['wsgi.input']
-                        inp.seek(0)
-                        seen['input'] = inp.read()
-                    elif t == 'forms':
-                        seen['forms'] = _canon_forms(req.forms)
-                    elif t == 'files':
-                        seen['files'] = _canon_files(req.files)
-                    elif t == 'files_seek':
-                        seen['seek_problem'] = _seek_probe(req)
-                    elif t.startswith('files_rr:'):
-                        seen['files'] = _canon_files_round_robin(req, int(t.split(':')[1]))
-                    elif t == 'POST':
-                        seen['POST'] = _canon_post(req.POST)
-                    elif t == 'json':
-                        seen['json'] = req.json
-                    elif t == 'params':
-                        seen['params'] = _canon_forms(req.params)
-                    else:
-                        raise AssertionError(t)
+                for t in ops:
+                    do_op(req, t)
             except SimHang as e:
                 o.hang = e
                 raise
             except BaseException as e:   # noqa
-                o.handler_exc = e
-                if retry and type(e).__name__ != 'RunTimeout':
+                if o.handler_exc is None:
+                    o.handler_exc = e
+                if retry and stage == 'handler' and type(e).__name__ != 'RunTimeout':
                     # an application (or its error handler) that touches the body again after the failure:
                     # the failure must stick, the stream must not be consumed any further
                     seen['retry_calls_before'] = stream.n_calls
@@ -224,7 +244,22 @@ def body_request(wire, sched, *, B, M=None, cl=None, chunked=False, ctype=None, 
                             seen['retry_copy_exc'] = e2
                     seen['retry_calls_after'] = stream.n_calls
                 raise
+
+        def handler():
+            if stages.get('lazy'):
+                # the handler's work happens while the server iterates the response (after _handle returned)
+                def gen():
+                    run_ops(touch, 'handler')
+                    yield 'ok'
+                return gen()
+            run_ops(touch, 'handler')
             return 'ok'
+
+        if not SHARED['on']:
+            if stages.get('before'):
+                app.add_hook('before_request', lambda: run_ops(stages['before'], 'before'))
+            if stages.get('after'):
+                app.add_hook('after_request', lambda: run_ops(stages['after'], 'after'))
 
         if SHARED['on']:
             SHARED['handlers'][SHARED_index(path)] = handler
